@@ -94,6 +94,31 @@ theorem reach_runOps (kinds : Array String) (depth : Nat) (l : List GOp)
 theorem reach_runG (p : PSt) (l : List GOp) (h : Reachable p.gs) : Reachable (runG p l).gs :=
   reach_runOps _ _ l (p.gs, p.err) h
 
+/-! ### the rewiring of the switches -/
+
+theorem reach_rewire (kinds : Array String) (hints : List (Nat × Int)) (x : GcScript.St × Bool)
+    (r : SwRec) (h : Reachable x.1) : Reachable (rewire kinds hints x r).1.1 := by
+  unfold rewire
+  dsimp only
+  split
+  · exact h
+  · split
+    · split
+      · exact h
+      · exact reach_runOps _ _ _ x h
+    · exact h
+
+theorem reach_rewireAll (p : PSt) (h : Reachable p.gs) : Reachable (rewireAll p).gs := by
+  unfold rewireAll
+  exact foldl_preserves (P := fun acc : (GcScript.St × Bool) × List SwRec => Reachable acc.1.1)
+    (fun acc r hacc => reach_rewire p.kinds p.hints acc.1 r hacc) p.sw ((p.gs, p.err), []) h
+
+theorem reach_ite {c : Prop} [Decidable c] {a b : PSt} (ha : Reachable a.gs)
+    (hb : Reachable b.gs) : Reachable (if c then a else b).gs := by
+  split
+  · exact ha
+  · exact hb
+
 theorem reach_dropAll (kinds : Array String) (keep : List Nat) (x : GcScript.St × Bool)
     (h : Reachable x.1) : Reachable (dropAll kinds keep x).1 := by
   unfold dropAll
@@ -101,6 +126,63 @@ theorem reach_dropAll (kinds : Array String) (keep : List Nat) (x : GcScript.St 
   intro x a hx
   exact foldl_preserves (P := fun x : GcScript.St × Bool => Reachable x.1)
     (fun x _ hx => reach_dropHandle kinds x a hx) _ x hx
+
+/-! ### `step` without the tokenisation -/
+
+/-- the body of `step` once the line is compiled (a copy of the `match` of `step`): string
+    tokenisation (`trimAscii`, `splitOn`, `toNat?`) does not reduce in the kernel, this does -/
+def stepR (p : PSt) : R → PSt × String
+  | .ops l env =>
+    let p := runG { p with env := env } l
+    let p := if balanced p then p else { p with err := true }
+    (p, if p.err then "struct-error" else "ok")
+  | .sw pre atClose post env r =>
+    let p := runG { p with env := env, sw := p.sw ++ [r] } pre
+    let p := if p.depth = 0 then
+        let p := runG (rewireAll p) ([.eot] ++ atClose)
+        { p with env := p.env.filter fun kv => match kv.2 with | .temps _ => false | _ => true }
+      else { p with pend := p.pend ++ atClose }
+    let p := runG p post
+    let p := if balanced p then p else { p with err := true }
+    (p, if p.err then "struct-error" else "ok")
+  | .hints l => ({ p with hints := l }, "-")
+  | .quiet l => (runG (if p.depth = 0 then rewireAll p else p) l, "-")
+  | .open_ => ({ p with depth := p.depth + 1 }, "ok")
+  | .close =>
+    if p.depth = 0 then (p, "bad-op") else
+    let p := { p with depth := p.depth - 1 }
+    let p := if p.depth = 0 then
+        let p := runG p p.pend
+        rewireAll { p with pend := [], env := p.env.filter fun kv => match kv.2 with | .temps _ => false | _ => true }
+      else p
+    let p := runG p [.eot]
+    (p, if p.err then "struct-error" else "ok")
+  | .skip => (p, "skip")
+  | .na => (p, "-")
+  | .bad => (p, "bad-op")
+  | .dump => (p, if p.err then "struct-error" else dump p)
+  | .leak =>
+    let (p, keep) := leakStep p
+    ({ p with sw := [] }, if p.err then "struct-error" else
+      s!"leak={leakCount p}" ++ if keep.isEmpty then "" else s!" listeners-still-rooted={keep.length}")
+
+/-- the words of a line, as `step` cuts them -/
+def tokens (line : String) : List String := (line.trimAscii.toString.splitOn " ").filter (· ≠ "")
+
+/-- `step` is: tokenise, compile, `stepR` -/
+theorem step_eq_stepR (p : PSt) (line : String) :
+    step p line =
+      if tokens line == ["---"] then ({}, "---")
+      else stepR p (compile p.env p.gs.g.nextId (tokens line)) := by
+  unfold step stepR tokens
+  rfl
+
+/-- a line whose words are `ws` (not the reset line) steps as `stepR` of the compiled words -/
+theorem step_of_tokens (p : PSt) (line : String) (ws : List String) (ht : tokens line = ws)
+    (hn : (ws == ["---"]) = false) :
+    step p line = stepR p (compile p.env p.gs.g.nextId ws) := by
+  rw [step_eq_stepR, ht, hn]
+  rfl
 
 /-! ### plain drops -/
 
